@@ -291,6 +291,8 @@ def equals(interp, a, b):
         if type(a) is not type(b):
             return False
         raise OutOfSubset("equality of distinct opaque objects")
+    if getattr(type(a), "_pyvc_eq", False) and type(a) is type(b):
+        return bool(a == b)
     kinds = (type(a).__name__, type(b).__name__)
     if isinstance(a, (str, StrSeq)) != isinstance(b, (str, StrSeq)):
         return False
